@@ -3,6 +3,16 @@
 import json, sys
 pid, tag = sys.argv[1], sys.argv[2]
 p = [json.loads(l) for l in open('/verif/properties.jsonl') if json.loads(l)['id'] == pid][0]
+import glob, os
+prev = []
+for d in sorted(glob.glob('/verif/seeded/%s?' % pid)):
+    try:
+        prev.append("- " + json.load(open(d + '/meta.json'))['summary'][:600])
+    except Exception:
+        pass
+prevtext = ""
+if prev:
+    prevtext = "\n\nChanges of this kind that were ALREADY tried for this property (yours must use a DIFFERENT mechanism, preferably in a different function or file, and need a different trigger):\n" + "\n".join(prev)
 wt = "/tmp/wt-%s" % tag
 out = "/tmp/seedout/%s" % tag
 print(f"""You are helping test a verification framework for the Go project google/mtail (a log-tailing daemon that compiles a small DSL to bytecode, runs it in a VM per log line, and exports metrics). Your job: write ONE realistic, subtle code change (a plausible regression a developer could introduce) that BREAKS the following behavioural property of mtail while still compiling and passing mtail's existing test suite.
@@ -11,6 +21,8 @@ PROPERTY ({pid}): {p['title']}
 {p['statement']}
 Quantified over: {p['quantifier']['text']}
 Relevant source files (relative to the repo root): {', '.join(p['anchors']['files'])}
+
+{prevtext}
 
 Work ONLY in your own scratch git worktree at {wt} (create it first with: git -C /repo worktree add --detach {wt} HEAD ). Never edit /repo itself and never look at or touch /verif. The sandbox is offline; export these in every shell call before using go: export GOFLAGS=-mod=mod GOPROXY=off GOSUMDB=off GOTOOLCHAIN=local
 
